@@ -330,9 +330,9 @@ func (v *visitor) IndexNode(node *ast.IndexNode) reflect.Type {
 func (v *visitor) SliceNode(node *ast.SliceNode) reflect.Type {
 	t := v.visit(node.Node)
 
-	_, isIndex := indexType(t)
-
-	if isIndex || isString(t) {
+	// Arrays, slices and strings can be sliced (and values whose type is
+	// only known at run time); maps cannot.
+	if isArray(t) || isString(t) {
 		if node.From != nil {
 			from := v.visit(node.From)
 			if !isInteger(from) {
